@@ -12,7 +12,7 @@ package smf
 //@ spec abstract tkOf(q uint16, bpm real, ns int64) uint32 = f2u32(mathRound((real(int(ns)) / 1000000.0 * real(int(q)) * bpm) / 60000.0))
 
 //@ func (MetricTicks).Ticks
-//@ uses tkOf.def
+//@ uses tkOf.def, mathRoundNear, f2u32InRange
 //@ ensures [P:C13] ticks == tkOf(q == 0 ? 960 : uint16(q), fractionalBPM, int64(d))
 
 // what may be stored in a track of a Standard MIDI File out of a live stream: channel messages (and complete
@@ -28,3 +28,11 @@ package smf
 //@ ensures [P:C13] (recChan(msg) || recSysex(msg)) ==> (len(*t) == old(len(*t)) + 1 && (*t)[len(*t)-1].Message == msg && forall i int :: 0 <= i && i < old(len(*t)) ==> (*t)[i] == old((*t)[i]))
 //@ ensures [P:C13] (recChan(msg) || recSysex(msg)) ==> (*t)[len(*t)-1].Delta == tkOf(ticks == 0 ? 960 : uint16(ticks), bpm, int64(absms - old(absmillisec)) * 1000000)
 //@ ensures [P:C13] !recChan(msg) && !recSysex(msg) ==> *t == old(*t)
+
+// ---------------------------------------------------------------- C11: ticks -> duration -> ticks
+// Duration in nanoseconds of t ticks: round(6*10^10 * t / (bpm * q))
+//@ spec abstract durOf(q uint16, bpm real, t uint32) real = mathRound(60000000000.0 * real(int(t)) / (bpm * real(int(q))))
+
+//@ func (MetricTicks).Duration
+//@ uses durOf.def, mathRoundNear
+//@ ensures [P:C11] (durOf(q == 0 ? 960 : uint16(q), fractionalBPM, deltaTicks) >= 0.0 && durOf(q == 0 ? 960 : uint16(q), fractionalBPM, deltaTicks) < 9223372036854775808.0) ==> (result >= 0 && real(int(result)) == durOf(q == 0 ? 960 : uint16(q), fractionalBPM, deltaTicks))
